@@ -170,7 +170,7 @@ def run(ctx):
                'model permutation and history: bit-identical (NaN-aware)', 'tie order is free: comparison is per model name')
     ctx.require_events('Fitter.fit:post', 'pair:filter-permutation', 'pair:model-permutation', 'pair:flux-scaling', 'pair:history',
                        'history:same-flags-other-errors', 'history:two-live-fitters', 'pair:filter-permutation:remove_resolved',
-                       'history:several-live-fitters-on-one-package', 'pair:filter-permutation:v2', 'pair:model-permutation:v2')
+                       'history:several-live-fitters-on-one-package', 'pair:filter-permutation:v2', 'pair:model-permutation:v2', 'source-arrays-edited-in-place')
     ctx.require_regimes('mode:2d', 'mode:3d', 'history:remove_resolved-band-dependent', 'history:v2-memmap')
     n_sets = 1 if ctx.quick else 4
     for iset in range(n_sets):
@@ -238,6 +238,7 @@ def run(ctx):
                 for (v, f, e, cond, wsum) in sources:
                     i0 = base.fit(gen.build_source('s', v, f, e))
                     r0, m0 = by_name(i0), fluxes_by_name(i0)
+                    live_src = None
                     for c in [1e-4, 1e-2, 0.5, 3.0, 1e2, 1e4] if ctx.quick else 10.0 ** rng.uniform(-4, 4, 12):
                         c = float(c)
                         f2, e2 = f.copy(), e.copy()
@@ -248,7 +249,15 @@ def run(ctx):
                                 f2[j] = f[j] * c
                             elif fl == 4:
                                 f2[j] = f[j] + math.log10(c)
-                        i1 = base.fit(gen.build_source('s', v, f2, e2))
+                        if live_src is None or len(live_src.flux) != len(f2) or not probe.same(np.asarray(live_src.valid), v):
+                            live_src = gen.build_source('s', v, f2, e2)
+                        else:
+                            # the same Source object as for the previous constant, its arrays edited in place (s.flux[:] = ..., as
+                            # s.flux *= c would): it has been fitted before, nothing remembered from then may be used
+                            live_src.flux[:] = f2
+                            live_src.error[:] = e2
+                            ctx.event('source-arrays-edited-in-place')
+                        i1 = base.fit(live_src)
                         r1 = by_name(i1)
                         compare(ctx, 'flux-scaling-not-a-scale-shift', 'multiplying fluxes and errors by a constant did not shift scale by -0.5 log10(c) with A_V, chi^2 unchanged',
                                 r0, r1, cond, wsum, dict(mode=mode, c=c, valid=v, flux=f, error=e), shift=-0.5 * math.log10(c))
